@@ -191,6 +191,8 @@ def main(run):
     # ---------------- RiverWrapper
     for rep in range(90 if not thorough else 400):
         kind = ["dict", "float", "int", "bool", "str", "npfloat", "str", "npbool", "npint", "npfloat32"][rep % 10]
+        if rep % 20 == 16:
+            kind = "mixed"          # HISTORY: one wrapper sees string labels AND numeric predictions, in either order (labels such as 'low', 'mid', 2)
         labels = rnd.sample(["cat", "dog", "bird", "fish", "x", "y", "z"], [2, 3, 5, 7][rep % 4])
 
         def pred(x, kind=kind, labels=labels):
@@ -211,6 +213,8 @@ def main(run):
                 return np.int64(s)
             if kind == "npfloat32":
                 return np.float32(s / 4.0)
+            if kind == "mixed" and s % 3 == 0:
+                return [2, 0, 1.5, np.int64(3), True][s % 5]
             return labels[s % len(labels)]
         w = RiverWrapper(pred)
         seen_labels = []
@@ -229,10 +233,12 @@ def main(run):
                 p = pred(xi)
                 if kind == "dict":
                     exps.append(dict(p))
-                elif kind == "str":
+                elif kind == "str" or (kind == "mixed" and isinstance(p, str)):
                     if p not in seen_labels:
                         seen_labels.append(p)
                     exps.append({l: (1.0 if l == p else 0.0) for l in seen_labels})
+                    if kind == "mixed":
+                        run.count("river-mixed-history-calls")
                 else:
                     exps.append({"output": float(p)})
             got = w(xs) if batch else [w(xs[0])]
